@@ -130,11 +130,29 @@ func (c *dctl) fn(id string, buffered bool) getoptions.CommandFn {
 		c.cur--
 		c.mu.Unlock()
 		c.ack <- struct{}{}
+		// the library must recognise its sentinel and keep the task's own error reachable through
+		// wrapping (errors.Is), whatever else the error wraps: a task may fail on a private deadline
+		// while the run's context is alive
+		variant := k
+		if len(id) > 0 {
+			variant += int(id[0])
+		}
 		switch res {
 		case "nil":
 			return nil
 		case "skip":
+			if variant%2 == 1 {
+				return fmt.Errorf("nothing to do for %s: %w", id, dag.ErrorSkipParents)
+			}
 			return dag.ErrorSkipParents
+		}
+		switch variant % 4 {
+		case 1:
+			return fmt.Errorf("task %s: %w", id, errBoom)
+		case 2:
+			return fmt.Errorf("%w: %w", errBoom, context.DeadlineExceeded)
+		case 3:
+			return fmt.Errorf("%w (%w)", errBoom, context.Canceled)
 		}
 		return errBoom
 	}
